@@ -26,6 +26,7 @@ type c15FanClient struct {
 	Unsubs []string `json:"unsubs,omitempty"` // UNSUBSCRIBEd after every client has subscribed, before the publishes
 	Left   bool     `json:"left,omitempty"`   // disconnected (socket closed) before the publishes
 	Rejoin bool     `json:"rejoin,omitempty"` // cleanSession=false; drops and reconnects (cleanSession=false) before the publishes
+	Park   bool     `json:"park,omitempty"`   // (with rejoin) the reconnect happens while the old connection's teardown is parked in the Disconnect pipeline
 	Gone   bool     `json:"gone"`             // unregistered through the admin endpoint before the publishes (subscriptions stay in the trie)
 }
 
@@ -118,17 +119,26 @@ func c15RunFan(in c15FanIn) (obs c15FanObs) {
 			env.open--
 			delete(live, c.Cid)
 		} else if c.Rejoin {
+			if c.Park {
+				env.gate.arm(c.Cid)
+			}
 			cli.closeSock()
 			env.open--
 			delete(live, c.Cid)
-			if !c15Quiesce(env.open) {
+			parked := c.Park && env.gate.waitEntered()
+			if c.Park && !parked {
+				obs.Bad = append(obs.Bad, "hung: teardown of "+c.Cid+" never reached the Disconnect pipeline")
+			}
+			if !parked && !c15Quiesce(env.open) {
 				obs.Bad = append(obs.Bad, "hung: no quiescence after "+c.Cid+" dropped")
 			}
+			// (when parked: the old connection is between Client.close() and removeClient right now)
 			if again, code := env.dial(c.Cid, false, true); again != nil {
 				live[c.Cid] = again
 			} else {
 				obs.Bad = append(obs.Bad, fmt.Sprintf("reconnect %s refused %d", c.Cid, code))
 			}
+			env.gate.open()
 		} else if c.Gone {
 			env.httpDeleteSession(c.Cid)
 			delete(live, c.Cid)
@@ -210,9 +220,14 @@ func c15GenFan(r *vfRand, adv bool) c15FanIn {
 			c.Subs[1].Q = 0
 		}
 		c.Gone = !adv && r.Chance(1, 8)
-		if !c.Gone && r.Chance(1, 6) && len(c.Subs) > 1 {
+		if !c.Gone && r.Chance(1, 5) && len(c.Subs) > 1 {
 			c.Rejoin = true
+			c.Park = r.Bool()
 			c.Subs[0].Q, c.Subs[1].Q = 1, 0 // restored filters must keep their own QoS
+			if r.Bool() {
+				// QoS upgrade of an existing filter: the stored session must carry the new QoS
+				c.Subs = append(c.Subs, c15Sub{F: c.Subs[1].F, Q: 1})
+			}
 		}
 		if !c.Gone && r.Chance(1, 4) && len(c.Subs) > 0 {
 			// unsubscribe one of its own filters (sometimes one it never had) or leave altogether
